@@ -59,7 +59,8 @@ def run(ctx):
 
     # ---- integer ranges: exhaustive over widths, boundaries, spellings
     for n in range(8, 257, 8):
-        for v in (-(1 << (n - 1)) - 1, -(1 << (n - 1)), -1, 0, (1 << (n - 1)) - 1, 1 << (n - 1), (1 << n) - 1, 1 << n):
+        for v in (-(1 << (n - 1)) - 1, -(1 << (n - 1)), -(1 << (n - 1)) + 1, -1, 0, (1 << (n - 1)) - 1, 1 << (n - 1), (1 << (n - 1)) + 1, (1 << n) - 1, 1 << n, (1 << n) + 1,
+                  -(1 << n), -((1 << n) - 1)):
             for signed in (False, True):
                 ty = ("int%d" if signed else "uint%d") % n
                 ok = (-(1 << (n - 1)) <= v < (1 << (n - 1))) if signed else (0 <= v < (1 << n))
